@@ -8,6 +8,7 @@ import ast
 import collections
 import inspect
 import json
+import os
 import sys
 import time
 import traceback
@@ -61,7 +62,10 @@ def main():
         def counting_check(self, *a, **k):
             t = time.perf_counter()
             r = _orig_check(self, *a, **k)
-            qstats["seconds"] += time.perf_counter() - t
+            dt = time.perf_counter() - t
+            qstats["seconds"] += dt
+            if dt > 2.0 and os.environ.get("VF_SLOWQ"):
+                sys.stderr.write("SLOW QUERY %.1fs %s\n%s\n" % (dt, r, self.sexpr()[-3000:]))
             qstats["queries"] += 1
             if str(r) == "unknown":
                 qstats["unknown"] += 1
@@ -75,6 +79,9 @@ def main():
 
         from crosshair.core_and_libs import analyze_function, run_checkables
         from crosshair.options import AnalysisOptionSet
+        from vf import fastpaths
+
+        fastpaths.install()
 
         stats = collections.Counter()
         opts = AnalysisOptionSet(
